@@ -10,6 +10,7 @@ Structural clauses decided:
  R5 a flow is created only on a SYN for an untracked connection; payload is stored with this segment's sequence number; the
     stored bytes are the IP payload
  C07.R2/R3 a finished flow is removed under the key it is stored with
+ C05.R1 / C18.R2 / W.R3 head cut at the earliest blank line, direction-symmetric dispatch, FIFO batches; TW IPv4/IPv6 twins agree
 """
 from ..engine import cfg as C
 from ..engine import q as Q
